@@ -241,14 +241,12 @@ def install_linalg_hooks(ctx):
         for r in A:
             had *= math.sqrt(sum(float(x) ** 2 for x in r))
         g = lu_growth(prepivoted(A))
-        if g is None:
-            # mechanism: the a-priori row permutation does not make P*A LU-factorisable (zero pivot during elimination)
+        if g is None or g > 1e3:
+            # mechanism: the a-priori row permutation does not make P*A (stably) LU-factorisable: zero or vanishing pivot
             c.check(abs(F(res) - d) <= F(1e-9) * max(abs(d), F(had) * F(1e-3)), 'det/value/a-priori-pivoting-breakdown',
                     'matrix_determinant = %r, Leibniz determinant = %r (LU of the pre-pivoted matrix hits a zero pivot)'
                     % (res, float(d)), what='matrix_determinant', A=A)
             return True
-        if g > 1e3:
-            return False
         c.check(abs(F(res) - d) <= F(1e-9) * F(g) * max(abs(d), F(had) * F(1e-3)), 'det/value',
                 'matrix_determinant = %r, Leibniz determinant = %r' % (res, float(d)), what='matrix_determinant', A=A)
         return True
@@ -545,7 +543,7 @@ def check_history(case, ctx):
             except ZeroDivisionError:
                 # raising is not "returning a result"; only allowed when LU of the pre-pivoted matrix really breaks down
                 g = lu_growth(prepivoted(A))
-                ctx.check(g is None, 'solve/%s-raised' % op, '%s raised ZeroDivisionError although P*A has an LU '
+                ctx.check(g is None or g > 1e3, 'solve/%s-raised' % op, '%s raised ZeroDivisionError although P*A has a stable LU '
                           'factorisation' % op, what='raise-justified', A=A)
         elif op == 'lu_solve':
             must = cls in ('diagdom', 'collocation')
